@@ -148,7 +148,11 @@ def run(W, chk):
                 if not any(o == "msg.id" for (o, ops) in flat_atoms(pargs[0])):
                     return None
                 return {tb for (v, tb, vn) in labels3 if v != "otherwise"}
-        pol = CutPolicy([NotId1()])
+        # the same assumption when the dispatch is written as a comparison (`if msg.id != ID { return Err }`, `if msg.id == ID {..}`)
+        id_eq = PredTrue("msg.id==ID", lambda pn, pa: pn == "eq" and len(pa) > 1 and (
+            (exact_origins(pa[0]) == {"msg.id"} and all(o.startswith("Const(") for o in all_origins(pa[1]))) or
+            (exact_origins(pa[1]) == {"msg.id"} and all(o.startswith("Const(") for o in all_origins(pa[0])))))
+        pol = CutPolicy([NotId1(), id_eq])
         A = W.run(c, "reply", None, pol)
         tv = tagvals(A.ret, "#v:std::result::Result") if A.ret is not None else None
         good = pol.hits and not A.effects() and tv == {"Err"}
